@@ -59,10 +59,14 @@ def projOfJson (j : Json) : Proj :=
     configs := strMapOf j "configs"
     environment := strMapOf j "environment" }
 
-def polOfStr : String → Policy
+def polOfStr1 : String → Policy
   | "dependents" => .dependents
   | "ignore" => .ignore
   | _ => .deps
+
+/-- `"none"` = no option, `"a+b"` = the options `a`, `b` in call order -/
+def polOfStr (s : String) : Policy :=
+  if s == "none" then policyOf [] else policyOf ((s.splitOn "+").map polOfStr1)
 
 def opOfJson (j : Json) : Op :=
   let names := strsOf j "names"
@@ -215,6 +219,62 @@ def modelRun : Handler := fun args =>
   let ops := (arrOf args "ops").map opOfJson
   projToJson (canon (run p ops))
 
-def handlers : List (String × Handler) := [("c15hist", hist), ("c15run", modelRun)]
+/-! ## `c15each` (round 5): `ForEachService` itself and the accessors, on one real project -/
+
+def getToStr : Get → String
+  | .ok _ => "ok"
+  | .disabled => "disabled"
+  | .notFound => "notFound"
+
+def getManyToJson : GetMany → Json
+  | .ok m => Json.mkObj [("ok", Json.mkObj (m.map fun (k, s) => (k, Json.str s.image)))]
+  | .disabled => Json.mkObj [("err", "disabled")]
+  | .notFound => Json.mkObj [("err", "notFound")]
+
+def sortStrs (l : List String) : List String := l.mergeSort (fun a b => decide (a ≤ b))
+
+/-- args: `init`, `names`, `opts` (policy names in call order), `probe` (names for the accessors), `gets` (the argument list
+of `GetServices`), `calls` / `err` (what the real `ForEachService` did).  Result: the model's accessors (compared by the
+judge), whether the model's walk agrees with the real one (same outcome; same *set* of calls — the order is Go's map
+order), and the clauses of `ForEachSpec` / `eachWanted` the real callback sequence violates. -/
+def each : Handler := fun args =>
+  let p := canon (projOfJson (getObj args "init"))
+  let names := strsOf args "names"
+  let opts := (strsOf args "opts").map polOfStr1
+  let pol := policyOf opts
+  let probe := strsOf args "probe"
+  let gets := strsOf args "gets"
+  let realCalls := strsOf args "calls"
+  let realErr := getStr args "err"
+  let m := forEachCalls p names opts
+  let (mErr, mCalls) : String × List String := match m with
+    | .ok _ c => ("", c)
+    | .noSuchService => ("noSuchService", [])
+    | .outOfFuel => ("model-fuel", [])
+  let agree := mErr == realErr && (realErr != "" || sortStrs mCalls == sortStrs realCalls)
+  let spec : List String :=
+    if !decide (Partition p) then ["skipped:not-a-partition"]
+    else if !decide (Named p) then ["skipped:name-differs-from-key"]
+    else match eachWanted p names pol, realErr with
+      | none, "" => ["each-accepts-missing"]
+      | some _, "noSuchService" => ["each-rejects"]
+      | some _, "" => clause "each-calls" (decide (ForEachSpec p names pol realCalls))
+      | _, _ => []
+  let branch : String := match m with
+    | .ok _ c => if c.isEmpty then "ok-empty" else if pol == .deps then "ok-deps" else if pol == .dependents then "ok-dependents" else "ok-ignore"
+    | .noSuchService => if (rootsOf p names).any (fun n => !has n p.services) then "err-root" else "err-required-dependency"
+    | .outOfFuel => "fuel"
+  Json.mkObj [("agree", .bool agree), ("spec", strs spec), ("branch", .str branch),
+    ("modelErr", .str mErr), ("modelCalls", strs mCalls),
+    ("serviceNames", strs (serviceNames p)), ("disabledNames", strs (disabledServiceNames p)),
+    ("get", Json.mkObj (probe.map fun n => (n, Json.str (getToStr (getService p n))))),
+    ("getServices", getManyToJson (getServices p gets)),
+    ("getDisabled", Json.mkObj (probe.map fun n => (n, Json.bool (getDisabledService p n).isSome))),
+    ("dependents", Json.mkObj (p.services.map fun (k, sv) => (k, strs (getDependentsForService p sv)))),
+    ("getDependents", Json.mkObj (p.services.map fun (k, sv) => (k, strs (sortStrs (getDependents p sv))))),
+    ("all", Json.mkObj ((allServices p).map fun (k, sv) => (k, Json.str sv.image))),
+    ("profilesOf", strs (getProfiles p.services)), ("profilesOfAll", strs (getProfiles (allServices p)))]
+
+def handlers : List (String × Handler) := [("c15hist", hist), ("c15run", modelRun), ("c15each", each)]
 
 end CV.Ops.C15
